@@ -21,7 +21,9 @@ from hv import common as C
 sys.path.insert(0, os.path.join(C.VERIF, "gen"))
 import mt_gen as G  # noqa: E402
 
-STATIC_FUNCS = ["hwloc_nolibxml_export", "hwloc_nolibxml_import", "hwloc_libxml2_init_once", "hwloc__xml_verbose", "hwloc_hide_errors"]
+STATIC_FUNCS = ["hwloc_nolibxml_export", "hwloc_nolibxml_import", "hwloc_libxml2_init_once", "hwloc__xml_verbose", "hwloc_hide_errors",
+                "hwloc__export_synthetic_memory_children"]
+BIND_FLAGS = (1 << 4) | (1 << 5)
 
 # every writable static object of the library (object file, symbol without the compiler's numeric
 # suffix) and what the model says about it
@@ -38,7 +40,7 @@ STATIC_CENSUS = {
     ("components.o", "hwloc_component_finalize_cbs"): "model LRegistry", ("components.o", "hwloc_component_finalize_cb_count"): "model LRegistry",
     ("components.o", "hwloc_static_components"): "constant table",
     ("pci-common.o", "reported"): "PCI discovery error path only", ("topology-pci.o", "hwloc_pciaccess_mutex"): "a mutex",
-    ("topology-synthetic.o", "warned"): "synthetic export with HWLOC_SYNTHETIC_VERBOSE and a shared memory hierarchy only",
+    ("topology-synthetic.o", "warned"): "model SSynthWarned (written every time the warning condition holds)",
     ("traversal.o", "names"): "constant table",
 }
 CENSUS_OUT_OF_SCOPE_OBJS = {"topology-linux.o", "topology-x86.o"}   # native discovery backends: load of the running machine, not modelled
@@ -132,15 +134,17 @@ def model_case(case, transcript):
             if prefix != "" and not sl:   # inside a thread program: no oracle line, derive from the command
                 src_xml = " xml " in cmd
                 flags = int(toks[2])
-                return "%sload %s nodist=%d nomemattr=%d nocpukinds=%d xml=%d extra=0 dists=- bind=-" % (
-                    prefix, toks[1], bool(flags & G.FLAG_NO_DISTANCES), bool(flags & G.FLAG_NO_MEMATTRS), bool(flags & G.FLAG_NO_CPUKINDS), src_xml)
+                return "%sload %s nodist=%d nomemattr=%d nocpukinds=%d xml=%d extra=0 dists=- bind=%s" % (
+                    prefix, toks[1], bool(flags & G.FLAG_NO_DISTANCES), bool(flags & G.FLAG_NO_MEMATTRS), bool(flags & G.FLAG_NO_CPUKINDS), src_xml,
+                    "flag" if flags & BIND_FLAGS else "-")
             if fieldv(sl, "rc") != "1":
                 return None
             nma = int(fieldv(sl, "nma"))
             nomem = fieldv(sl, "nomemattr") == "1"
             return "%sload %s nodist=%s nomemattr=%s nocpukinds=%s xml=%s extra=%d dists=%s bind=%s" % (
                 prefix, toks[1], fieldv(sl, "nodist"), fieldv(sl, "nomemattr"), fieldv(sl, "nocpukinds"), fieldv(sl, "xml"),
-                0 if nomem else max(0, nma - 8), fieldv(sl, "dists"), "none" if fieldv(sl, "restricted") == "1" else "-")
+                0 if nomem else max(0, nma - 8), fieldv(sl, "dists"),
+                "none" if fieldv(sl, "restricted") == "1" else ("flag" if int(toks[2]) & BIND_FLAGS else "-"))
         if kind == "mod":
             what = toks[2]
             if what == "restrict":
@@ -160,6 +164,8 @@ def model_case(case, transcript):
                 return None      # rejected for a tree-level reason (type filter, ...): no cache is touched; later lines would show otherwise
             return "%smod %s %s" % (prefix, toks[1], what)
         if kind == "cons":
+            if sl and fieldv(sl, "warns") is not None and ("warns=1" in toks) != (fieldv(sl, "warns") == "1"):
+                return prefix + " ".join(t for t in toks if not t.startswith("warns=")) + " warns=" + fieldv(sl, "warns")
             return prefix + " ".join(toks)
         return None
 
@@ -290,8 +296,8 @@ def run_case(ctx, run, name, case, replaying=False):
         if c in predicted:
             if c.startswith("static:"):
                 fn = c.split(":", 1)[1]
-                run.violation("first-use-static:" + fn,
-                              "ThreadSanitizer: data race on the function-local static cache of %s when two threads make their first call concurrently (%s)" % (fn, kind),
+                run.violation(("always-writes-static:" if fn == "hwloc__export_synthetic_memory_children" else "first-use-static:") + fn,
+                              "ThreadSanitizer: data race on the function-local static of %s when two threads call it concurrently (%s)" % (fn, kind),
                               replay + "\ntsan:\n" + err_t.decode(errors="replace")[:6000])
                 ctx.confirmed.add(c)
             elif kind == "control-unrefreshed":
@@ -336,7 +342,7 @@ def check(run, replay=None):
     if os.path.isdir(cdir):
         for n in sorted(os.listdir(cdir)):
             if n.endswith(".case"):
-                cases.append(("corpus/" + n, open(os.path.join(cdir, n)).read().replace("@REPO@", C.REPO)))
+                cases.append(("corpus/" + n, open(os.path.join(cdir, n)).read().replace("@REPO@", C.REPO).replace("@CORPUS@", cdir)))
     rng = run.rng
     thorough = run.tier == "thorough"
     reps = 24 if thorough else 3
